@@ -61,7 +61,7 @@ func genC10(seed uint64) *Scenario {
 		if r.Chance(200) {
 			add(Op{Kind: KSetCOE, COE: bp(r.Chance(500))})
 		}
-		op := Op{Kind: KSpec, Doc: doc, OrderSeed: r.U64() | 1, YAML: r.Chance(150)}
+		op := Op{Kind: KSpec, Doc: doc, OrderSeed: r.U64() | 1, YAML: r.Chance(150), Reorder: r.Chance(150)}
 		switch x := r.Intn(10); {
 		case x < 4:
 			op.COE = bp(false)
@@ -269,6 +269,9 @@ func runC10(sc *Scenario, keepLog bool) *RunReport {
 		orders[op.OrderSeed] = true
 		if op.YAML {
 			rep.fault("yaml-serialisation-variant", 1)
+		}
+		if op.Reorder {
+			rep.fault("member-order-variant", 1)
 		}
 		if out.Panic != "" {
 			if strings.Contains(out.Panic, "inputError") {
@@ -491,8 +494,8 @@ func templateIn(msg string, set []string) bool {
 func init() {
 	register(&Prop{
 		ID: "C10", Level: "exploration",
-		Gen: func(seed uint64, tier string, idx int) *Scenario { return genC10(mixSeed(seed, uint64(idx))) },
-		Run: runC10,
+		Gen:       func(seed uint64, tier string, idx int) *Scenario { return genC10(mixSeed(seed, uint64(idx))) },
+		Run:       runC10,
 		QuickRuns: 240, ThoroughS: 1500,
 		Rule: "one run = one document (generated mini specification with 0..4 rule-breaking edits, or a small repository fixture) validated 2..6 times: under different seeded map iteration orders (= Go's per-process randomisation, made replayable), " +
 			"from JSON or YAML-converted bytes, with continue-on-errors false/true set per validator or through the package-level setter, after other validations and after a reset of all process-wide state; " +
